@@ -8,6 +8,7 @@ import json
 
 from .. import dump, gen
 from . import construct as C
+from . import formats
 
 ALLOWED_ERRORS = ("TypeError", "ValueError", "InvalidStructureErr", "IndexError", "KeyError")
 
@@ -353,6 +354,38 @@ def gen_cases_ext(rng, tier, n_classes, immutable=False):
         if not wrapped:
             continue
         ops, taken = [], []
+        # format-checking string fields (DateString, TimeString, IPV4, HostName, JSONString): on the wire a String whose
+        # pattern is a synthetic token; the model's regex oracle is answered for it by suites/formats.py
+        fmt_ops = []
+        if rng.random() < 0.45:
+            case = dict(case, cls=json.loads(json.dumps(case["cls"])), kw=list(case["kw"]))
+            fields = case["cls"]["fields"]
+            token = rng.choice(["@date:%Y-%m-%d", "@date:%d/%m/%Y", "@time", "@ipv4", "@hostname", "@json"])
+            good = [v for v in formats.POOL if formats.token_ok(token, v)]
+            fields.append(["z", {"k": "string", "pattern": token}])
+            fields.append(["y", {"k": "seqOf", "item": {"k": "string", "pattern": token}}])
+            if rng.random() < 0.5:
+                case["cls"]["required"] = sorted(case["cls"]["required"] + ["z"])
+                case["kw"].append(["z", rng.choice(good)])
+            elif rng.random() < 0.6:
+                case["kw"].append(["z", rng.choice(good)])
+            if rng.random() < 0.7:
+                case["kw"].append(["y", {"l": [rng.choice(good) for _ in range(rng.randint(0, 2))]}])
+            C.fix_accepts(case["cls"])
+            pick = lambda: rng.choice(good) if rng.random() < 0.4 else rng.choice(formats.POOL + [5, None, True, {"l": []}])
+            for _ in range(rng.randint(2, 5)):
+                q = rng.random()
+                if q < 0.5:
+                    fmt_ops.append({"op": "setattr", "f": "z", "v": pick()})
+                elif q < 0.6:
+                    fmt_ops.append({"op": "setattr", "f": "y", "v": {"l": [pick() for _ in range(rng.randint(0, 2))]}})
+                elif q < 0.9:
+                    m = rng.choice(["append", "insert", "extend", "__setitem__", "__iadd__"])
+                    args = {"append": [pick()], "insert": [0, pick()], "extend": [{"l": [pick()]}], "__setitem__": [0, pick()],
+                            "__iadd__": [{"l": [pick(), pick()]}]}[m]
+                    fmt_ops.append({"op": "call", "f": "y", "m": m, "args": args})
+                else:
+                    fmt_ops.append({"op": "delitem", "f": "z"})
         for op in case["ops"] + [None] * rng.randint(1, 3):
             for _ in range(rng.choice([0, 1, 1, 2])):
                 nm, fd = rng.choice(wrapped)
@@ -408,6 +441,8 @@ def gen_cases_ext(rng, tier, n_classes, immutable=False):
                             ops.append({"op": "callNested", "f": nm, "k": k, "m": call[0], "args": call[1], **call[2]})
             if op is not None:
                 ops.append(op)
+        for fo in fmt_ops:
+            ops.insert(rng.randrange(len(ops) + 1), fo)
         ext = dict(case, ops=ops, ext=True)
         # a hook of the second family: "one of these fields must hold a value", over fields the start instance holds,
         # with operations that try to clear them (None assignment, deletion)
@@ -419,7 +454,7 @@ def gen_cases_ext(rng, tier, n_classes, immutable=False):
                 for _ in range(rng.randint(1, 2)):
                     clear = {"op": "setattr", "f": g, "v": None} if rng.random() < 0.6 else {"op": "delitem", "f": g}
                     ops.insert(rng.randrange(len(ops) + 1), clear)
-        ext["re"] = gen.re_table(case["cls"], case["kw"], ops)
+        ext["re"] = formats.fix_re_table(gen.re_table(case["cls"], case["kw"], ops))
         out.append(ext)
     return out
 
